@@ -76,7 +76,9 @@ impl Octree {
     ) -> Option<Self> {
         let shape = b.shape();
         let vars = b.vars();
-        if let Some(threads) = settings.threads {
+        // A depth-0 octree is a single cell: there is nothing to split into
+        // tasks (and the root cell has no parent slot to be merged into)
+        if let Some(threads) = settings.threads.filter(|_| settings.depth > 0) {
             Self::build_inner_mt(shape, settings, vars, threads)
         } else {
             let mut eval = RenderHandle::new(shape.clone());
